@@ -77,7 +77,9 @@ def _c05_viol(res):
     v = []
     for r in res["resolve"]["verdicts"]:
         if r["bad"]:
-            v.append(dict(stage="resolve", id=r["id"], what=[["cell_not_resolved_as_documented"]],
+            metas = [b for b in r["bad"] if b and b[0] == "meta_data_not_as_written"]
+            v.append(dict(stage="resolve", id=r["id"],
+                          what=[list(b) for b in metas[:3]] or [["cell_not_resolved_as_documented"]],
                           kind="cell", cells=r["bad"][:2], cfg=r["cfg"]))
     for st in ("resolve", "prec"):
         for e in res[st]["errs"]:
